@@ -453,6 +453,58 @@ def rule_contr(repo, tier):
     return res
 
 
+@guarded
+def rule_grad2(repo, tier):
+    """Triggs needs rho'' = d(rho')/dx by differentiating the graph of rho'.  A kernel with constant slope (Scale, any linear user kernel, Huber
+    on inliers only is NOT such a case because of its masked assignment) gives a rho' WITHOUT a graph, and autograd.grad on it raises instead
+    of returning zero.  Every second-order grad call - a grad whose output stems from an earlier grad(..., create_graph=True) - is therefore
+    dominated by a test that this output requires grad (with a zero second derivative otherwise)."""
+    res = RuleResult('C09.GRAD2', 'correctors: a second-order autograd.grad (of the result of a create_graph=True grad) is taken only under a test '
+                     'that the first derivative carries a graph; a constant rho\' has rho\'\' = 0, it must not raise', floor=1)
+    m = repo.module('pypose.optim.corrector')
+    n = 0
+    for f in m.functions.values():
+        first = {}
+        for a in ast.walk(f.node):
+            if isinstance(a, ast.Assign) and len(a.targets) == 1 and isinstance(a.targets[0], ast.Name):
+                for c in ast.walk(a.value):
+                    if isinstance(c, ast.Call) and (dotted(c.func) or '').split('.')[-1] == 'grad' and \
+                            any(k.arg == 'create_graph' and isinstance(k.value, ast.Constant) and k.value.value is True for k in c.keywords):
+                        first[a.targets[0].id] = a
+        if not first:
+            continue
+        parents = {}
+        for p_ in ast.walk(f.node):
+            for c_ in ast.iter_child_nodes(p_):
+                parents[id(c_)] = p_
+        for c in ast.walk(f.node):
+            if isinstance(c, ast.Call) and (dotted(c.func) or '').split('.')[-1] == 'grad' and c.args:
+                used = {x.id for x in ast.walk(c.args[0]) if isinstance(x, ast.Name)} & set(first)
+                if not used:
+                    continue
+                n += 1
+                g = sorted(used)[0]
+                # guarded: an enclosing If / IfExp whose test reads <g>.requires_grad (or grad_fn)
+                ok = False
+                cur = c
+                while id(cur) in parents:
+                    par = parents[id(cur)]
+                    if isinstance(par, (ast.If, ast.IfExp)) and cur is not par.test:
+                        tnames = {dotted(x) for x in ast.walk(par.test) if isinstance(x, ast.Attribute)}
+                        positive = (isinstance(par, ast.IfExp) and cur is par.body) or (isinstance(par, ast.If) and any(cur is s_ or any(cur is y for y in ast.walk(s_)) for s_ in par.body))
+                        if ({g + '.requires_grad', g + '.grad_fn'} & tnames) and positive and not (isinstance(par.test, ast.UnaryOp) and isinstance(par.test.op, ast.Not)):
+                            ok = True
+                    cur = par
+                res.inst({'function': f.fq, 'second-order grad': src(c)[:50], 'of': g, 'under a requires_grad test': ok}, (f.fq, src(c)))
+                if not ok:
+                    res.add(Finding('C09.GRAD2', f, '`%s` differentiates `%s` unconditionally: for a kernel with constant slope (Scale, a linear kernel) `%s` has '
+                                    'no graph and autograd raises "does not require grad" - Triggs fails where it should coincide with FastTriggs'
+                                    % (src(c)[:50], g, g), node=c))
+    if n == 0:
+        raise AnalysisError('C09.GRAD2: no second-order grad call found in the correctors')
+    return res
+
+
 SINGULAR_AT_ZERO = {'sqrt', 'rsqrt', 'log', 'log2', 'log10', 'reciprocal'}
 
 
@@ -570,7 +622,7 @@ def rule_sing(repo, tier):
 
 def _rules_core(repo, tier):
     return [rule_guard(repo, tier), rule_kind(repo, tier)] + rule_masks(repo, 'C09.MP', 'C09.GD', [(KER, 'Huber.forward')], floor=1) + \
-        [rule_unit(repo, tier), rule_sel_axis(repo, tier), rule_contr(repo, tier), rule_sing(repo, tier)]
+        [rule_unit(repo, tier), rule_sel_axis(repo, tier), rule_contr(repo, tier), rule_sing(repo, tier), rule_grad2(repo, tier)]
 
 
 def rules(repo, tier):
